@@ -1,7 +1,9 @@
 // watchx drives the real watchers (pkg/controller/reconciler, hook H2) with the real class validator:
-//   -mode seq : replays the delivery/swap schedules proposed by TLC from spec/Watchers.tla, one after the other;
-//   -mode conc: several informer goroutines deliver uniquely named events while another goroutine keeps taking
-//               batches (and delivers the ConfigMap updates); meant to be built with -race.
+//
+//	-mode seq : replays the delivery/swap schedules proposed by TLC from spec/Watchers.tla, one after the other;
+//	-mode conc: several informer goroutines deliver uniquely named events while another goroutine keeps taking
+//	            batches (and delivers the ConfigMap updates); meant to be built with -race.
+//
 // It writes one line per delivery and per swap for spec/TraceWatchers.tla.  In conc mode the delivery order is the
 // order of the object list entries of the batches (they are appended under the lock).
 package main
@@ -59,16 +61,16 @@ type batch struct {
 }
 
 type line struct {
-	Ev  string   `json:"ev"`
-	ID  string   `json:"id,omitempty"`
-	E   *event   `json:"e,omitempty"`
-	Acc *bool    `json:"acc,omitempty"`
+	Ev  string    `json:"ev"`
+	ID  string    `json:"id,omitempty"`
+	E   *event    `json:"e,omitempty"`
+	Acc *bool     `json:"acc,omitempty"`
 	Q   *[]string `json:"q,omitempty"`
-	P   *int     `json:"p,omitempty"`
-	J   *int     `json:"j,omitempty"`
-	B   *batch   `json:"b,omitempty"`
-	Nf  *int     `json:"full,omitempty"`
-	Np  *int     `json:"partial,omitempty"`
+	P   *int      `json:"p,omitempty"`
+	J   *int      `json:"j,omitempty"`
+	B   *batch    `json:"b,omitempty"`
+	Nf  *int      `json:"full,omitempty"`
+	Np  *int      `json:"partial,omitempty"`
 }
 
 var resKinds = []string{"ConfigMap", "Ingress", "IngressClass", "Service", "Secret", "Endpoints", "Pod"}
@@ -184,8 +186,8 @@ func batchOf(ch *convtypes.ChangedObjects) *batch {
 
 func key(e *event) string { return e.Op + "/" + e.Res + ":" + e.Name }
 
-func pb(b bool) *bool { return &b }
-func pi(i int) *int   { return &i }
+func pb(b bool) *bool         { return &b }
+func pi(i int) *int           { return &i }
 func ps(s []string) *[]string { return &s }
 
 // ---- sequential replay
